@@ -14,8 +14,10 @@ C02 line protocol.  One line = one whole history over a small "world" of caches
   on_miss `a,b` is the function k ↦ a*k+b; with `/ke/ve` (key lists `k.k.k` or `-`) it raises
   KeyError for the keys in ke and ValueError for the keys in ve;  with `/ke/ve/prog/depth` it is RE-ENTRANT
   (`Reent.lean`): `prog` = `k=op+op+…~k=op+…` gives, per key, the calls on_miss(k) makes on the cache it was
-  called from (op tokens as below with cache number 0) before it returns / raises as `a,b/ke/ve` say; `depth` is the
-  nesting depth at which the callback raises ValueError instead (the interpreter's fuel);  keys, values are naturals (value 0 stands for
+  called from (op tokens as below with cache number 0; `?op` = the call is wrapped in try / except Exception: pass)
+  before it returns / raises as `a,b/ke/ve` say (`a,b,st`: it returns a*k+b+st*(number of earlier on_miss calls on this
+  cache), a callback with state); `depth` is the nesting depth at which the callback raises ValueError instead (the
+  interpreter's fuel);  keys, values are naturals (value 0 stands for
   Python's None);  pairs are `k.v,k.v,...` (`-` = empty);  `i`,`j` are cache numbers.
     s:i:k:v      c[k] = v                 g:i:k        c[k]
     d:i:k        del c[k]                 G:i:k:v      c.get(k, v)
@@ -145,8 +147,9 @@ def logLenH (w : List H) (i : Nat) : Nat := match w[i]? with
 def recordH (nk : Nat) (res : String) (calls : List Nat) (w : List H) : String :=
   "|".intercalate (s!"{res}@{showNats calls}" :: w.map (dumpH nk))
 
-/-- `k=op+op~k=op…` -> the calls on_miss(k) makes, per key -/
-def parseProg? (s : String) : Option (List (Nat × List (Op Nat Nat))) :=
+/-- `k=op+op~k=op…` -> the calls on_miss(k) makes, per key; a call written `?op` is wrapped in
+    `try: … except Exception: pass` -/
+def parseProg? (s : String) : Option (List (Nat × List (Bool × Op Nat Nat))) :=
   if s = "-" ∨ s = "" then some [] else
   (splitOnChar s '~').foldr (fun w acc =>
     match acc, splitOnChar w '=' with
@@ -154,11 +157,12 @@ def parseProg? (s : String) : Option (List (Nat × List (Op Nat Nat))) :=
       match k.toNat? with
       | none => none
       | some k =>
-        let acts : Option (List (Op Nat Nat)) :=
+        let acts : Option (List (Bool × Op Nat Nat)) :=
           if body = "-" ∨ body = "" then some [] else
           (splitOnChar body '+').foldr (fun t acc =>
-            match acc, parseOp? 1 t with
-            | some l, some (.on _ op) => some (op :: l)
+            let guarded := t.startsWith "?"
+            match acc, parseOp? 1 (if guarded then (t.drop 1).toString else t) with
+            | some l, some (.on _ op) => some ((guarded, op) :: l)
             | _, _ => none) (some [])
         acts.map fun a => (k, a) :: l
     | _, _ => none) (some [])
@@ -182,8 +186,8 @@ def handle (line : String) : String :=
   | lru :: mx :: om :: nk :: init :: toks =>
     let resOf (a b : Nat) (ke ve : List Nat) : Nat → OmRes Nat :=
       fun k => if ke.contains k then .keyError else if ve.contains k then .error else .ret (a * k + b)
-    -- (on_miss as a function of the key, re-entrant part: programs and depth)
-    let onMiss? : Option (Option (Nat → OmRes Nat) × Option (List (Nat × List (Op Nat Nat)) × Nat)) :=
+    -- (on_miss as a function of the key; re-entrant part: calls per key, state factor, depth)
+    let onMiss? : Option (Option (Nat → OmRes Nat) × Option (List (Nat × List (Bool × Op Nat Nat)) × Nat × Nat × Nat × Nat × List Nat × List Nat)) :=
       if om = "-" then some (none, none) else
       match splitOnChar om '/' with
       | [ab] =>
@@ -196,26 +200,33 @@ def handle (line : String) : String :=
         | _, _, _ => none
       | [ab, ke, ve, prog, depth] =>
         match natList? ab, natList? ke '.', natList? ve '.', parseProg? prog, depth.toNat? with
-        | some [a, b], some ke, some ve, some prog, some depth => some (some (resOf a b ke ve), some (prog, depth))
+        | some [a, b], some ke, some ve, some prog, some depth =>
+          some (some (resOf a b ke ve), some (prog, depth, a, b, 0, ke, ve))
+        | some [a, b, st], some ke, some ve, some prog, some depth =>
+          some (some (resOf a b ke ve), some (prog, depth, a, b, st, ke, ve))
         | _, _, _, _, _ => none
       | _ => none
     match lru.toNat?, mx.toNat?, onMiss?, nk.toNat?, parsePairs? init with
     | some lru, some mx, some (onMiss, re), some nk, some init =>
       if mx = 0 ∨ 3 < lru then "bad-op" else
-      -- the re-entrant on_miss as a program table
-      let P : Nat → OmProg Nat Nat := fun k =>
-        ⟨match re with
-          | some (prog, _) => (lookup k prog).getD []
-          | none => [],
-         match onMiss with
-          | some f => f k
-          | none => .keyError⟩
+      -- the re-entrant on_miss as a strategy table: the calls of the key's program in order, then the outcome
+      -- a*k + b + st * (number of earlier on_miss calls on this cache), or the exception chosen by ke / ve
+      let P : List Nat → Nat → OmProg Nat Nat := fun lg k =>
+        match re with
+        | some (prog, _, a, b, st, ke, ve) =>
+          OmProg.ofList ((lookup k prog).getD [])
+            (if ke.contains k then .keyError else if ve.contains k then .error else .ret (a * k + b + st * lg.length))
+        | none => .done .keyError
+      let depthOf : Nat := match re with
+        | some (_, depth, _) => depth
+        | none => 0
+      let re : Option Unit := re.map fun _ => ()
       let showStep {X : Type} (r : List X × Out Nat Nat X) : List X × String := (r.1, showOut r.2)
       if 2 ≤ lru then
         -- the pointer-level model
         let h0 : H := (HCache.initP (lru = 3) mx onMiss).setAll init
         let wst : List H → WOp Nat Nat → List H × String := match re with
-          | some (_, depth) => fun w op => showStep (rhwstep P depth w op)
+          | some _ => fun w op => showStep (rhwstep P depthOf w op)
           | none => fun w op => showStep (hwstep w op)
         let callsOf (w : List H) (i before : Nat) : List Nat := match w[i]? with
           | some c => c.omLog.drop before
@@ -226,7 +237,7 @@ def handle (line : String) : String :=
       else
       let c0 : C := (Cache.initP (lru = 1) mx onMiss).setAll init
       let wst : List C → WOp Nat Nat → List C × String := match re with
-        | some (_, depth) => fun w op => showStep (rwstep P depth w op)
+        | some _ => fun w op => showStep (rwstep P depthOf w op)
         | none => fun w op => showStep (wstep w op)
       let callsOf (w : List C) (i before : Nat) : List Nat := match w[i]? with
         | some c => c.omLog.drop before
